@@ -1347,6 +1347,21 @@ fn write_stream(t: &[&str]) -> String {
             return format!("relocwrite-mismatch {} at {} lens {} {}", sname(id), pos, b.len(), dsec.len());
         }
     }
+    // relocatable fields of a frame table, by construction of the script: per FDE the CIE pointer
+    // (.debug_frame only: write_offset) and the initial address; nothing in CIEs without personality
+    {
+        let nf = recorded.get(SectionId::DebugFrame).unwrap().rel.len() + recorded.get(SectionId::EhFrame).unwrap().rel.len();
+        let want = match p.cfi {
+            1 => Some(2 * p.nfde),
+            2 | 3 => Some(p.nfde),
+            _ => None,
+        };
+        if let Some(w) = want {
+            if nf != w {
+                return format!("relocsites-mismatch frame-fields recorded={} expected={}", nf, w);
+            }
+        }
+    }
     // (c) + (b): replay through RelocateReader
     let mut missed: Vec<String> = Vec::new();
     let mut extra: Vec<String> = Vec::new();
